@@ -39,3 +39,24 @@ func init() {
 		Old: "\treturn len(p.methods) != 0 ||\n\t\tp.methodAll != nil ||\n", New: "\treturn len(p.methods) != 0 ||\n",
 		Expect: "reads:path.methodAll", Why: "a node holding only a kind-* route counts as dead"})
 }
+
+func init() {
+	control(&Control{ID: "mdgateout-unfolded-key", Rule: "MD-GATE-OUT", File: "larking/grpc.go",
+		Old: "\t\tk = strings.ToLower(k)\n\t\tif isReservedResponseHeader(k) {\n", New: "\t\tif isReservedResponseHeader(k) {\n",
+		Expect: "reserved-filter-folds-case", Why: "mixed-case reserved key passes the filter"})
+	control(&Control{ID: "headermd-dropped-on-failure", Rule: "HEADER-MD-ON-FAILURE", File: "larking/http.go",
+		Old: "\t\t\tsetOutgoingHeader(w.Header(), stream.header)\n\t\t\tw.Header().Set(\"Content-Encoding\", \"identity\") // try to avoid gzip\n", New: "\t\t\tw.Header().Set(\"Content-Encoding\", \"identity\") // try to avoid gzip\n",
+		Expect: "header-metadata-before-error", Why: "failing RPC drops the header metadata"})
+}
+
+func init() {
+	control(&Control{ID: "webflush-lazy", Rule: "WEB-FLUSH-COMMITS", File: "larking/web.go",
+		Old: "\tif !w.wroteHeader {\n\t\tw.seeHeaders()\n\t}\n\tif f, ok := w.w.(http.Flusher); ok {\n\t\tf.Flush()\n\t}\n", New: "\tif w.wroteHeader {\n\t\tif f, ok := w.w.(http.Flusher); ok {\n\t\t\tf.Flush()\n\t\t}\n\t}\n",
+		Expect: "(*webWriter).Flush/records-headers", Why: "flush before any write records nothing"})
+}
+
+func init() {
+	control(&Control{ID: "limitdirection-send-vs-receive", Rule: "LIMIT-DIRECTION", File: "larking/grpc.go",
+		Old: "\tif int(size) > s.opts.maxSendMessageSize {\n", New: "\tif int(size) > s.opts.maxReceiveMessageSize {\n",
+		Expect: "(*streamGRPC).SendMsg/refusal-uses-send-limit", Why: "reply checked against the receive limit"})
+}
